@@ -20,7 +20,7 @@ if [ -z "${VERIF_SKIP_INERT:-}" ]; then
   fi
   rm -rf "$OV"
 fi
-# the in-memory carrier must behave like grpc-go (compared over bufconn, 14 scripted programs)
+# the in-memory carrier must behave like grpc-go (compared over bufconn, 16 scripted programs)
 if [ -z "${VERIF_SKIP_CONFORMANCE:-}" ]; then
   OV=$(mktemp -d .build/conf.XXXXXX)
   ./bin/instrument -repo /repo -rt "$PWD/rt" -out "$PWD/$OV" >/dev/null
@@ -32,5 +32,9 @@ if [ -z "${VERIF_SKIP_CONFORMANCE:-}" ]; then
     grep -A2 MISMATCH "$OV/conf.log" >&2
   fi
   rm -rf "$OV"
+fi
+# warm the build cache for the race pass of C15 (race-instrumented grpc-go and standard library)
+if [ -z "${VERIF_SKIP_RACE:-}" ]; then
+  (cd racepass && go1.26.8 test -c -race -vet=off -o /dev/null .) >/dev/null 2>&1 && echo "race pass builds: ok" || echo "WARNING: the race pass of C15 does not build" >&2
 fi
 echo "setup ok"
